@@ -310,9 +310,10 @@ def run(ctx, rep):
         b = bs[0]
         regb = [b] + F.closures_of(b)
         # only the unfolding arithmetic: operations whose slice contains the unary read (msb) of the Rice code
-        ops = sorted((s["rv"]["op"], op_int(s["rv"]["b"])) for bb in regb for bl in bb.blocks for s in bl["s"] if s["rv"]["r"] == "bin" and s["rv"]["op"] in ("Shr", "BitAnd", "BitOr") or
-                     (s["rv"]["r"] == "bin" and s["rv"]["op"] == "Eq" and op_int(s["rv"]["b"]) == 1))
-        calls = sorted(strip_generics(t["f"].get("path") or "").rsplit("::", 1)[-1] for bb in regb for _, t in bb.calls() if (t["f"].get("path") or "") in ("std::ops::Neg::neg", "std::ops::Sub::sub", "std::ops::Add::add") or "from_u32" in (t["f"].get("path") or ""))
+        ops = sorted({(s["rv"]["op"], op_int(s["rv"]["b"])) for bb in regb for bl in bb.blocks for s in bl["s"] if s["rv"]["r"] == "bin" and s["rv"]["op"] in ("Shr", "BitAnd", "BitOr") or
+                     (s["rv"]["r"] == "bin" and s["rv"]["op"] == "Eq" and op_int(s["rv"]["b"]) == 1)})
+        # (sets, not multisets: naming `unsigned >> 1` once instead of writing it in both arms is the same unfolding)
+        calls = sorted({strip_generics(t["f"].get("path") or "").rsplit("::", 1)[-1] for bb in regb for _, t in bb.calls() if (t["f"].get("path") or "") in ("std::ops::Neg::neg", "std::ops::Sub::sub", "std::ops::Add::add") or "from_u32" in (t["f"].get("path") or "")})
         sig[name] = (ops, calls)
     if len(sig) == 2:
         rep.check("C17.resid", "both decoders unfold Rice residuals with the same operations", sig["decode"] == sig["stream"], "", str(sig["decode"])[:200], "decode.rs: %s ; stream.rs: %s" % (sig["decode"], sig["stream"]))
